@@ -432,7 +432,7 @@ class Enumerator(object):
                 raise Unrecognised('for-loop desugaring not recognised')
             pat, it, body = fl
             itt = self.leaf(it, path)
-            itt, item = S.iter_view(itt)
+            itt, item = S.iter_view(itt, it)
             if path.effects and path.effects[-1].startswith('std::collections::HashMap::') and path.effects[-1] != S.show(itt) and itt[0] == 'call' and itt[1] == 'std::collections::HashMap::iter':
                 path.effects[-1] = S.show(itt)  # keys()/values() read as a projection of iter()
             path.effects.append('for _ in %s {' % S.show(itt))
@@ -451,7 +451,7 @@ class Enumerator(object):
             # `iter.try_for_each(|x| body)`: read as the loop `for x in iter { body? }`
             it, cn = H.call_args(node)[0], S.closure_node(H.call_args(node)[1])
             itt = self.leaf(it, path)
-            itt, item = S.iter_view(itt)
+            itt, item = S.iter_view(itt, it)
             if path.effects and path.effects[-1].startswith('std::collections::HashMap::') and path.effects[-1] != S.show(itt) and itt[0] == 'call' and itt[1] == 'std::collections::HashMap::iter':
                 path.effects[-1] = S.show(itt)
             path.effects.append('for _ in %s {' % S.show(itt))
